@@ -101,7 +101,14 @@ def absorb(rep, jobs, results, accepted_lengths=True):
             if r['ok'] == 0 and not r['panics']:
                 rep.note_inconclusive('vacuity: %s has no accepting path' % r['tag'])
             for s in r.get('samples', [])[:1]:
-                rep.sample({'scenario': r['tag'], 'accepting_path_model': s})
+                rep.sample({'scenario': r['tag'], 'accepting_path_model': {'accepted_input_prefix': s['accepted_input_prefix']}})
+                # translator validation: the accepted input mirsym found must be accepted and re-encoded identically by the real code
+                if s.get('accepted_input') is not None:
+                    got = replay.call1(['parse', what, N, hexs(s['accepted_input'])])
+                    if got == 'Ok ' + hexs(s['accepted_input']):
+                        rep.replayed += 1
+                    else:
+                        rep.note_inconclusive('translator validation failed (%s): mirsym accepts an input the real code answers with %s' % (r['tag'], got[:60]))
         elif r['ok'] > 0:
             # an accepted wrong length: exhibit it
             rep.oblige(1, ok=False)
